@@ -33,3 +33,7 @@ package wastepb
 //@   ensures [negative] old(req.PageSize) < 0 ==> err != nil
 //@   ensures [page-size] err == nil ==> len(resp.WasteRecords) <= 1000 && (old(req.PageSize) > 0 ==> len(resp.WasteRecords) <= old(req.PageSize)) && (old(req.PageSize) == 0 ==> len(resp.WasteRecords) <= 50)
 //@   replay WasteListServer(req.PageSize)
+//@
+//@ property C11
+//@ type Model
+//@   guarded_by mu: allWasteRecords, genId
